@@ -417,6 +417,33 @@ def rule_order_free(ctx: Ctx) -> None:
                     n5 += 1
                     ctx.add("5-order-free", fn, pos, False, f"`{norm(pos)}` uses the position of a function in the listing: results depend on listing order")
     ctx.add("5-order-free", BASE, "", n5 == 0, "no positional use of `.functions` in the evaluation machinery", key="scan")
+    # the constructor validates the pipeline as a WHOLE: a validation of the partial pipeline after every single function judges
+    # a prefix of the listing - e.g. two consumers with different defaults for a name are refused unless the producer of that name
+    # happens to be listed before the second of them
+    init = P.func(f"{BASE}.Pipeline.__init__")
+    pl_cls = P.cls(f"{BASE}.Pipeline")
+
+    def self_calls(node: ast.AST) -> list[ast.Call]:
+        return [c for c in ast.walk(node) if isinstance(c, ast.Call) and isinstance(c.func, ast.Attribute) and norm(c.func.value) == "self" and c.func.attr in dict.keys(pl_cls.methods)]
+
+    # Pipeline methods that validate, followed through `self.<method>(...)` calls only (the receiver is the pipeline itself)
+    validating = {"_validate"}
+    grew = True
+    while grew:
+        grew = False
+        for nm, m in dict.items(pl_cls.methods):
+            if nm not in validating and nm != "__init__" and any(c.func.attr in validating for c in self_calls(m.node)):
+                validating.add(nm)
+                grew = True
+    loops = [lp for lp in walk_no_nested(init.node) if isinstance(lp, ast.For) and any(isinstance(x, ast.Name) and x.id == "functions" for x in ast.walk(lp.iter))]
+    in_loop = {id(c) for lp in loops for c in self_calls(lp)}
+    inside = [c for c in self_calls(init.node) if id(c) in in_loop and c.func.attr in validating]
+    after = [c for c in self_calls(init.node) if id(c) not in in_loop and c.func.attr in validating]
+    ctx.tri("5-order-free", init, inside[0] if inside else (loops[0] if loops else init.node), bool(loops) and not inside and bool(after), bool(inside),
+            "the constructor adds all functions and validates the complete pipeline",
+            f"`{norm(inside[0])[:50] if inside else ''}` validates the PARTIAL pipeline after every function of the listing: whether a pipeline can be constructed depends on the listing order "
+            "([f(c=1), g(c=2), h -> c] is refused for inconsistent defaults of `c`, [h, f, g] is accepted - `c` is an output there and the defaults are irrelevant)",
+            "the constructor's loop over the functions / its validation was not recognised", key="validate-whole-listing")
 
 
 def rule_combinations_name_consumed_outputs(ctx: Ctx) -> None:
